@@ -70,12 +70,10 @@ def queries(tier):
     qs.append(tq("adaptive-analyze-select", {"CODEC": 30}))
     qs.append(tq("for", {"CODEC": 1}))
     qs.append(tq("rle", {"CODEC": 3}))
-    # BP128: the two delta encoders.  Encode32/Encode64 and the Elias array encoders are NOT run under self-composition:
-    # CBMC returns a counterexample for Encode32/64 (bytes differ between the two runs) that reproduces neither natively
-    # nor under MemorySanitizer, and the Elias query does not finish in 20 minutes; both cells were removed rather than
-    # left raising an unexplained alarm (DESIGN.md section 9).
-    for sub, nm in ((2, "delta32"), (3, "delta64")):
+    for sub, nm in enumerate(["enc32", "enc64", "delta32", "delta64"]):
         qs.append(tq("bp128-" + nm, {"CODEC": 5, "SUB": sub}, uf=BP))
+    # (the Elias array encoders are not run under self-composition: the query does not finish in 40 minutes; they write only
+    #  through varintBitWriterInit's memset + OR-ed bits, and C02/C03/C16 decide their output and metadata)
     qs.append(tq("group-delta", {"CODEC": 7}))
     if not q:
         qs.append(tq("pfor", {"CODEC": 2}, to=2400))
